@@ -1,1 +1,337 @@
-import Eliot.Proofs.ParseCompl
+import Eliot.Proofs.ParseParser
+/-!
+# C09 — parsing is order-independent and detects task completeness exactly
+
+Model: `Eliot/Model/Parse.lean` (`Task.add`, `Parser.add`, `Parser.feed`, `parseStream`), a
+transliteration of `eliot/parse.py` over a trie keyed by level components.
+
+Quantifier: every specification `ts : Spec` (any number of tasks with distinct uuids; every tree
+shape — nested actions at any depth and breadth stand for remote sub-tasks too — and one-message
+tasks), every duplicate-free list `ms` of messages drawn from it (so: every subset), in every
+order.  `arrived ms` is the set of messages in `ms`; all conclusions depend on `ms` only through it.
+-/
+namespace PM.C09
+open PM
+
+/-- the set of messages in a history -/
+def arrived (ms : List PMsg) : PMsg → Bool := fun x => ms.contains x
+
+def uni (S : PMsg → Bool) (ms : List PMsg) : PMsg → Bool := fun x => S x || ms.contains x
+
+theorem uni_cons (S : PMsg → Bool) (m : PMsg) (ms : List PMsg) : uni (ext S m) ms = uni S (m :: ms) := by
+  funext x
+  by_cases h : x = m
+  · simp [uni, ext, h]
+  · have hb : (x == m) = false := by simpa using h
+    simp [uni, ext, h, hb]
+
+theorem allArrived_mono {S : PMsg → Bool} {u : String} {t : Tree} (m : PMsg) (h : allArrived S u t) :
+    allArrived (ext S m) u t := fun x hx => by simp [ext, h x hx]
+
+theorem allArrived_uni {S : PMsg → Bool} {u : String} {t : Tree} (ms : List PMsg) (h : allArrived S u t) :
+    allArrived (uni S ms) u t := fun x hx => by simp [uni, h x hx]
+
+/-- What `Parser.feed` does from any state satisfying the invariant. -/
+theorem feed_spec {ts : Spec} (hwf : ts.WF) : ∀ (ms : List PMsg) (S : PMsg → Bool) (p : Parser), POK S ts p →
+    ms.Nodup → (∀ m ∈ ms, m ∈ ts.msgs) → (∀ m ∈ ms, S m = false) →
+    ∃ done p', Parser.feed p ms = .ok (done, p') ∧ POK (uni S ms) ts p' ∧
+      (done.map (·.1)).Nodup ∧
+      (∀ u T, (u, T) ∈ done → ∃ t, (u, t) ∈ ts ∧ ¬ allArrived S u t ∧ allArrived (uni S ms) u t ∧
+          TaskIs (uni S ms) u t T ∧ T.isComplete = true) ∧
+      (∀ u t, (u, t) ∈ ts → ¬ allArrived S u t → allArrived (uni S ms) u t → ∃ T, (u, T) ∈ done) := by
+  intro ms
+  induction ms with
+  | nil =>
+    intro S p hp _ _ _
+    have : uni S [] = S := by funext x; simp [uni]
+    refine ⟨[], p, rfl, by rw [this]; exact hp, by simp, by simp, ?_⟩
+    intro u t _ h1 h2; rw [this] at h2; exact absurd h2 h1
+  | cons m ms ih =>
+    intro S p hp hnd hin hS
+    obtain ⟨u, t, ht, hm⟩ := Spec.mem_msgs (hin m List.mem_cons_self)
+    have hSm := hS m List.mem_cons_self
+    obtain ⟨done₁, p₁, hadd, hp₁, hdone₁⟩ := Parser.add_step hwf hp ht hm hSm
+    have hnd' := (List.nodup_cons.mp hnd)
+    have hS₁ : ∀ x ∈ ms, ext S m x = false := by
+      intro x hx
+      have hne : x ≠ m := fun h => hnd'.1 (h ▸ hx)
+      rw [ext_of_ne S m x hne]; exact hS x (List.mem_cons_of_mem _ hx)
+    obtain ⟨done₂, p₂, hfeed, hp₂, hnd₂, hs₂, hc₂⟩ :=
+      ih (ext S m) p₁ hp₁ hnd'.2 (fun x hx => hin x (List.mem_cons_of_mem _ hx)) hS₁
+    rw [uni_cons] at hp₂ hs₂ hc₂
+    have hnall : ¬ allArrived S u t := fun h => by have := h m hm; rw [hSm] at this; cases this
+    refine ⟨done₁ ++ done₂, p₂, ?_, hp₂, ?_, ?_, ?_⟩
+    · simp only [Parser.feed, hadd, hfeed, bind, Except.bind, pure, Except.pure]
+    · -- keys of done₁ ++ done₂
+      rcases hdone₁ with ⟨hall, T, hd, _, _⟩ | ⟨_, hd⟩
+      · subst hd
+        simp only [List.singleton_append, List.map_cons, List.nodup_cons]
+        refine ⟨?_, hnd₂⟩
+        intro hmem
+        obtain ⟨e, he, heq⟩ := List.mem_map.mp hmem
+        obtain ⟨t', ht', hn, _⟩ := hs₂ e.1 e.2 he
+        rw [heq] at ht' hn
+        have := hwf.unique ht ht'; subst this
+        exact hn hall
+      · subst hd; simpa using hnd₂
+    · intro u' T' hmem
+      rcases List.mem_append.mp hmem with h | h
+      · rcases hdone₁ with ⟨hall, T, hd, hT, hcT⟩ | ⟨_, hd⟩
+        · subst hd
+          simp only [List.mem_singleton, Prod.mk.injEq] at h
+          obtain ⟨rfl, rfl⟩ := h
+          have hall' : allArrived (uni S (m :: ms)) u' t := by rw [← uni_cons]; exact allArrived_uni ms hall
+          refine ⟨t, ht, hnall, hall', hT.congr (fun x hx => ?_), hcT⟩
+          rw [hall x hx, hall' x hx]
+        · subst hd; cases h
+      · obtain ⟨t', ht', hn, rest⟩ := hs₂ u' T' h
+        exact ⟨t', ht', fun ha => hn (allArrived_mono m ha), rest⟩
+    · intro u' t' ht' hn hall
+      by_cases h₁ : allArrived (ext S m) u' t'
+      · have hu : u' = u := by
+          apply Classical.byContradiction; intro hne
+          have hc := @ext_other S m u' t' (fun h => hne ((tmsgs_uuid u t m hm) ▸ h).symm)
+          exact hn ((allArrived.congr hc).mpr h₁)
+        subst hu
+        have := hwf.unique ht ht'; subst this
+        rcases hdone₁ with ⟨_, T, hd, _, _⟩ | ⟨hna, _⟩
+        · exact ⟨T, by rw [hd]; simp⟩
+        · exact absurd h₁ hna
+      · obtain ⟨T, hT⟩ := hc₂ u' t' ht' h₁ hall
+        exact ⟨T, List.mem_append_right _ hT⟩
+
+/-- Exactly-once characterisation of what `parse_stream` yields. -/
+structure OutOK (S : PMsg → Bool) (ts : Spec) (out : List (String × Task)) : Prop where
+  /-- no task appears twice -/
+  nodup : (out.map (·.1)).Nodup
+  /-- nothing else appears: every yielded task is a spec task some message of which arrived, in the
+  state determined by the *set* of arrived messages, and is complete iff all its messages arrived -/
+  sound : ∀ u T, (u, T) ∈ out → ∃ t, (u, t) ∈ ts ∧ someArrived S u t ∧ TaskIs S u t T ∧
+            (T.isComplete = true ↔ allArrived S u t)
+  /-- every task some message of which arrived appears -/
+  compl : ∀ u t, (u, t) ∈ ts → someArrived S u t → ∃ T, (u, T) ∈ out
+
+theorem someArrived_of_not_all {u : String} {t : Tree} {S S' : PMsg → Bool}
+    (h1 : ¬ allArrived S u t) (h2 : allArrived S' u t) : someArrived S' u t := by
+  have : tmsgs u t ≠ [] := by
+    intro h; apply h1; intro m hm; rw [h] at hm; cases hm
+  obtain ⟨m, hm⟩ := List.exists_mem_of_ne_nil _ this
+  exact ⟨m, hm, h2 m hm⟩
+
+/-- **feed_ok / yield_exactly_once**: on every duplicate-free sub-list of the messages of a
+well-formed specification, in any order, `parse_stream` raises nothing and yields: first the tasks
+that completed (each handed back by `Parser.add`, complete), then the ones still in the parser
+(incomplete); together exactly one entry per task that has any message in `ms`. -/
+theorem feed_ok {ts : Spec} (hwf : ts.WF) (ms : List PMsg) (hnd : ms.Nodup) (hin : ∀ m ∈ ms, m ∈ ts.msgs) :
+    ∃ done p, Parser.feed [] ms = .ok (done, p) ∧ parseStream ms = .ok (done ++ p) ∧
+      OutOK (arrived ms) ts (done ++ p) ∧
+      (∀ e ∈ done, e.2.isComplete = true) ∧ (∀ e ∈ p, e.2.isComplete = false) := by
+  obtain ⟨done, p, hfeed, hp, hnd₂, hs, hc⟩ :=
+    feed_spec hwf ms (fun _ => false) [] (POK.init ts) hnd hin (fun _ _ => rfl)
+  have hu : uni (fun _ => false) ms = arrived ms := by funext x; simp [uni, arrived]
+  rw [hu] at hp hs hc
+  have hnone : ∀ u t, ¬ allArrived (fun _ => false) u t ∨ tmsgs u t = [] := by
+    intro u t
+    cases h : tmsgs u t with
+    | nil => exact Or.inr rfl
+    | cons x xs => exact Or.inl (fun ha => by have := ha x (by rw [h]; simp); cases this)
+  have hne : ∀ u t, tmsgs u t ≠ [] := by
+    intro u t; cases t <;> simp [tmsgs, Tree.msgs]
+  have hnall0 : ∀ u t, ¬ allArrived (fun _ => false) u t := fun u t =>
+    (hnone u t).resolve_right (hne u t)
+  refine ⟨done, p, hfeed, by simp [parseStream, hfeed, bind, Except.bind, pure, Except.pure], ⟨?_, ?_, ?_⟩, ?_, ?_⟩
+  · -- keys nodup across done ++ p
+    rw [List.map_append, List.nodup_append]
+    refine ⟨hnd₂, hp.nodup, ?_⟩
+    intro a ha b hb hab
+    obtain ⟨e, he, rfl⟩ := List.mem_map.mp ha
+    obtain ⟨e', he', rfl⟩ := List.mem_map.mp hb
+    obtain ⟨t, ht, _, hall, _⟩ := hs e.1 e.2 he
+    obtain ⟨t', ht', _, _, hnall⟩ := hp.sound e'.1 e'.2 he'
+    rw [← hab] at ht'
+    have := hwf.unique ht ht'; subst this
+    exact hnall (hab ▸ hall)
+  · intro u T hmem
+    rcases List.mem_append.mp hmem with h | h
+    · obtain ⟨t, ht, hn, hall, hT, hcT⟩ := hs u T h
+      exact ⟨t, ht, someArrived_of_not_all hn hall, hT, ⟨fun _ => hall, fun _ => hcT⟩⟩
+    · obtain ⟨t, ht, hT, hsome, hnall⟩ := hp.sound u T h
+      exact ⟨t, ht, hsome, hT, hT.isComplete_iff hsome⟩
+  · intro u t ht hsome
+    by_cases hall : allArrived (arrived ms) u t
+    · obtain ⟨T, hT⟩ := hc u t ht (hnall0 u t) hall
+      exact ⟨T, List.mem_append_left _ hT⟩
+    · obtain ⟨T, hT⟩ := hp.compl u t ht hsome hall
+      exact ⟨T, List.mem_append_right _ hT⟩
+  · intro e he
+    obtain ⟨_, _, _, _, _, hcT⟩ := hs e.1 e.2 he
+    exact hcT
+  · intro e he
+    obtain ⟨t, _, hT, hsome, hnall⟩ := hp.sound e.1 e.2 he
+    cases hc' : e.2.isComplete with
+    | false => rfl
+    | true => exact absurd ((hT.isComplete_iff hsome).mp hc') hnall
+
+/-- **subset_no_error**: any subset of the messages, in any order, parses without error. -/
+theorem subset_no_error {ts : Spec} (hwf : ts.WF) (ms : List PMsg) (hnd : ms.Nodup) (hin : ∀ m ∈ ms, m ∈ ts.msgs) :
+    ∃ out, parseStream ms = .ok out := by
+  obtain ⟨done, p, _, h, _⟩ := feed_ok hwf ms hnd hin
+  exact ⟨_, h⟩
+
+/-- Two task states are the same value (`Task.__eq__`: same tree, same *set* of completed levels). -/
+def Task.Same (T₁ T₂ : Task) : Prop :=
+  T₁.root = T₂.root ∧ (∀ L, T₁.completed.contains L = T₂.completed.contains L)
+
+theorem TaskIs.same {S : PMsg → Bool} {u : String} {t : Tree} {T₁ T₂ : Task}
+    (h₁ : TaskIs S u t T₁) (h₂ : TaskIs S u t T₂) : Task.Same T₁ T₂ := by
+  cases t with
+  | leaf b => exact ⟨h₁.1.trans h₂.1.symm, fun L => (h₁.2 L).trans (h₂.2 L).symm⟩
+  | node a sb eb ok kids =>
+    exact ⟨h₁.root.trans h₂.root.symm,
+      fun L => (h₁.compl L (List.nil_prefix)).trans (h₂.compl L (List.nil_prefix)).symm⟩
+
+/-- **parse_perm_invariant**: the result does not depend on arrival order nor on how tasks are
+interleaved: for two orders of the same messages the same tasks are yielded (same uuids, each
+once), and for every uuid the two `Task` values are equal and equally complete. -/
+theorem parse_perm_invariant {ts : Spec} (hwf : ts.WF) (ms₁ ms₂ : List PMsg) (hperm : ms₁.Perm ms₂)
+    (hnd : ms₁.Nodup) (hin : ∀ m ∈ ms₁, m ∈ ts.msgs) :
+    ∃ out₁ out₂, parseStream ms₁ = .ok out₁ ∧ parseStream ms₂ = .ok out₂ ∧
+      (out₁.map (·.1)).Nodup ∧ (out₂.map (·.1)).Nodup ∧
+      (∀ u, (∃ T, (u, T) ∈ out₁) ↔ (∃ T, (u, T) ∈ out₂)) ∧
+      (∀ u T₁ T₂, (u, T₁) ∈ out₁ → (u, T₂) ∈ out₂ → Task.Same T₁ T₂ ∧ T₁.isComplete = T₂.isComplete) := by
+  have hnd₂ : ms₂.Nodup := hperm.nodup_iff.mp hnd
+  have hin₂ : ∀ m ∈ ms₂, m ∈ ts.msgs := fun m hm => hin m (hperm.mem_iff.mpr hm)
+  obtain ⟨d₁, p₁, _, h₁, ok₁, _⟩ := feed_ok hwf ms₁ hnd hin
+  obtain ⟨d₂, p₂, _, h₂, ok₂, _⟩ := feed_ok hwf ms₂ hnd₂ hin₂
+  have hS : arrived ms₁ = arrived ms₂ := by
+    funext x
+    simp only [arrived]
+    rw [Bool.eq_iff_iff]
+    simp only [List.contains_iff_mem]
+    exact hperm.mem_iff
+  rw [← hS] at ok₂
+  refine ⟨_, _, h₁, h₂, ok₁.nodup, ok₂.nodup, ?_, ?_⟩
+  · intro u
+    constructor
+    · rintro ⟨T, hT⟩; obtain ⟨t, ht, hs, _⟩ := ok₁.sound u T hT; exact ok₂.compl u t ht hs
+    · rintro ⟨T, hT⟩; obtain ⟨t, ht, hs, _⟩ := ok₂.sound u T hT; exact ok₁.compl u t ht hs
+  · intro u T₁ T₂ hT₁ hT₂
+    obtain ⟨t, ht, _, hI₁, hc₁⟩ := ok₁.sound u T₁ hT₁
+    obtain ⟨t', ht', _, hI₂, hc₂⟩ := ok₂.sound u T₂ hT₂
+    have := hwf.unique ht ht'; subst this
+    refine ⟨TaskIs.same hI₁ hI₂, ?_⟩
+    rw [Bool.eq_iff_iff, hc₁, hc₂]
+
+/-- **complete_iff_all_arrived**: a yielded task reports `is_complete()` exactly when every one of
+its messages is in the history. -/
+theorem complete_iff_all_arrived {ts : Spec} (hwf : ts.WF) (ms : List PMsg) (hnd : ms.Nodup)
+    (hin : ∀ m ∈ ms, m ∈ ts.msgs) :
+    ∃ out, parseStream ms = .ok out ∧ ∀ u T, (u, T) ∈ out → ∃ t, (u, t) ∈ ts ∧
+      (T.isComplete = true ↔ ∀ m ∈ tmsgs u t, m ∈ ms) := by
+  obtain ⟨d, p, _, h, ok, _⟩ := feed_ok hwf ms hnd hin
+  refine ⟨_, h, fun u T hT => ?_⟩
+  obtain ⟨t, ht, _, _, hc⟩ := ok.sound u T hT
+  refine ⟨t, ht, hc.trans ?_⟩
+  simp [allArrived, arrived]
+
+/-- **never_early**: after any valid prefix, `Parser.add` hands a task back exactly when the added
+message is the last missing one of that task (never earlier, never later), and then it is that
+task, complete. -/
+theorem never_early {ts : Spec} (hwf : ts.WF) (pre : List PMsg) (m : PMsg) (hnd : (pre ++ [m]).Nodup)
+    (hin : ∀ x ∈ pre ++ [m], x ∈ ts.msgs) {u : String} {t : Tree} (ht : (u, t) ∈ ts) (hm : m ∈ tmsgs u t) :
+    ∃ d₀ p₀ done p', Parser.feed [] pre = .ok (d₀, p₀) ∧ Parser.add p₀ m = .ok (done, p') ∧
+      (((∀ x ∈ tmsgs u t, x ∈ pre ++ [m]) ∧ ∃ T, done = [(u, T)] ∧ T.isComplete = true) ∨
+       (¬ (∀ x ∈ tmsgs u t, x ∈ pre ++ [m]) ∧ done = [])) := by
+  have hnd' := List.nodup_append.mp hnd
+  obtain ⟨d₀, p₀, hfeed, hp, _⟩ :=
+    feed_spec hwf pre (fun _ => false) [] (POK.init ts) hnd'.1
+      (fun x hx => hin x (List.mem_append_left _ hx)) (fun _ _ => rfl)
+  have hu : uni (fun _ => false) pre = arrived pre := by funext x; simp [uni, arrived]
+  rw [hu] at hp
+  have hSm : arrived pre m = false := by
+    simp only [arrived]
+    cases h : pre.contains m with
+    | false => rfl
+    | true => exact absurd rfl (hnd'.2.2 m (List.contains_iff_mem.mp h) m (by simp))
+  obtain ⟨done, p', hadd, _, hd⟩ := Parser.add_step hwf hp ht hm hSm
+  have hS : ∀ x, ext (arrived pre) m x = true ↔ x ∈ pre ++ [m] := by
+    intro x; simp [ext, arrived]
+  have hall : allArrived (ext (arrived pre) m) u t ↔ ∀ x ∈ tmsgs u t, x ∈ pre ++ [m] := by
+    simp only [allArrived, hS]
+  refine ⟨d₀, p₀, done, p', hfeed, hadd, ?_⟩
+  rcases hd with ⟨h1, T, h2, _, h3⟩ | ⟨h1, h2⟩
+  · exact Or.inl ⟨hall.mp h1, T, h2, h3⟩
+  · exact Or.inr ⟨fun h => h1 (hall.mpr h), h2⟩
+
+/-- **yield_exactly_once**: in `parse_stream`'s output every task with at least one message in the
+history appears exactly once — the complete ones first (at the step that completed them), the
+incomplete ones after the input ended — and nothing else appears. -/
+theorem yield_exactly_once {ts : Spec} (hwf : ts.WF) (ms : List PMsg) (hnd : ms.Nodup)
+    (hin : ∀ m ∈ ms, m ∈ ts.msgs) :
+    ∃ done rest, parseStream ms = .ok (done ++ rest) ∧
+      ((done ++ rest).map (·.1)).Nodup ∧
+      (∀ e ∈ done, e.2.isComplete = true) ∧ (∀ e ∈ rest, e.2.isComplete = false) ∧
+      (∀ u, (∃ T, (u, T) ∈ done ++ rest) ↔ ∃ t, (u, t) ∈ ts ∧ ∃ m ∈ tmsgs u t, m ∈ ms) := by
+  obtain ⟨d, p, _, h, ok, hd, hr⟩ := feed_ok hwf ms hnd hin
+  refine ⟨d, p, h, ok.nodup, hd, hr, fun u => ⟨?_, ?_⟩⟩
+  · rintro ⟨T, hT⟩
+    obtain ⟨t, ht, ⟨m, hm, hs⟩, _⟩ := ok.sound u T hT
+    exact ⟨t, ht, m, hm, by simpa [arrived] using hs⟩
+  · rintro ⟨t, ht, m, hm, hs⟩
+    exact ok.compl u t ht ⟨m, hm, by simpa [arrived] using hs⟩
+
+/-- **reconstruct**: all messages of one action task, in any order, parse to exactly that tree,
+complete (used by C01 / C06 / C11 / C17). -/
+theorem reconstruct (u : String) (a : String) (sb eb : Nat) (ok : Bool) (kids : Forest) (ms : List PMsg)
+    (hperm : ms.Perm (Tree.msgs u (.node a sb eb ok kids) [])) (hnd : ms.Nodup) :
+    ∃ T, parseStream ms = .ok [(u, T)] ∧ T.isComplete = true ∧
+      T.root = Tree.view (fun _ => true) u (.node a sb eb ok kids) [] := by
+  let t : Tree := .node a sb eb ok kids
+  have hwf : Spec.WF [(u, t)] := by simp [Spec.WF]
+  have hin : ∀ m ∈ ms, m ∈ Spec.msgs [(u, t)] := by
+    intro m hm; simp only [Spec.msgs, List.flatMap_cons, List.flatMap_nil, List.append_nil, tmsgs, t]
+    exact hperm.mem_iff.mp hm
+  obtain ⟨d, p, _, h, okk, _, _⟩ := feed_ok hwf ms hnd hin
+  have hall : allArrived (arrived ms) u t := by
+    intro m hm; simp only [arrived, List.contains_iff_mem]; exact hperm.mem_iff.mpr hm
+  have hsome : someArrived (arrived ms) u t :=
+    ⟨startMsg u [] a sb, by simp [tmsgs, t, Tree.msgs], hall _ (by simp [tmsgs, t, Tree.msgs])⟩
+  obtain ⟨T, hT⟩ := okk.compl u t (by simp) hsome
+  have hkeys : ∀ e ∈ d ++ p, e.1 = u := by
+    intro e he
+    obtain ⟨t', ht', _⟩ := okk.sound e.1 e.2 he
+    simp only [List.mem_singleton, Prod.mk.injEq] at ht'
+    exact ht'.1
+  have hsingle : d ++ p = [(u, T)] := by
+    have hnd' := okk.nodup
+    generalize d ++ p = l at hT hkeys hnd'
+    match l, hT, hkeys, hnd' with
+    | [e], hT, _, _ => simp only [List.mem_singleton] at hT; rw [hT]
+    | e₁ :: e₂ :: r, _, hkeys, hnd' =>
+      have h1 := hkeys e₁ (by simp)
+      have h2 := hkeys e₂ (by simp)
+      simp only [List.map_cons, List.nodup_cons, List.mem_cons, not_or] at hnd'
+      exact absurd (h1.trans h2.symm) hnd'.1.1
+  obtain ⟨t', ht', _, hI, hc⟩ := okk.sound u T hT
+  simp only [List.mem_singleton, Prod.mk.injEq] at ht'
+  obtain ⟨_, rfl⟩ := ht'
+  refine ⟨T, by rw [h, hsingle], hc.mpr hall, ?_⟩
+  have hI' : TaskOK (arrived ms) u (.node a sb eb ok kids) T := hI
+  rw [hI'.root]
+  exact Tree.view_congr _ _ u _ [] (fun m hm => hall m hm)
+
+/-! ## Non-vacuity: a concrete two-task specification with a nested (remote) sub-action, all of
+its messages in a scrambled, interleaved order. -/
+def exSpec : Spec :=
+  [("u", .node "a" 0 5 true (.cons (.leaf 1) (.cons (.node "b" 2 4 false (.cons (.leaf 3) .nil)) .nil))),
+   ("v", .leaf 9)]
+def exMsgs : List PMsg := (exSpec.msgs).reverse
+
+example : exSpec.WF ∧ exMsgs.Nodup ∧ (∀ m ∈ exMsgs, m ∈ exSpec.msgs) ∧ exMsgs.length = 7 := by
+  refine ⟨by simp [Spec.WF, exSpec], by decide, fun m hm => List.mem_reverse.mp hm, by decide⟩
+example : (parseStream exMsgs).toOption.map (·.map (fun e => (e.1, e.2.isComplete))) =
+    some [("v", true), ("u", true)] := by decide
+example : (parseStream exMsgs.dropLast).toOption.map (·.map (fun e => (e.1, e.2.isComplete))) =
+    some [("v", true), ("u", false)] := by decide
+
+end PM.C09
